@@ -122,7 +122,8 @@ def run_case(case, ch: Choices) -> RunResult:
                       "enum_seed": ch.draw("env.enum", 2 ** 20) if ch.chance("env.shuffle", 3, 4) else None,
                       "creation_seed": ch.draw("env.creation", 2 ** 20) if ch.chance("env.creation_on", 2, 3) else None,
                       "clock": 1_700_000_000.0 + ch.pick("env.clock", [0, 1, 86400 * 365, -10 ** 8]),
-                      "prior": ch.weighted("env.prior", [("fresh", 3), ("over_existing", 3), ("twice", 2), ("crashed_prefix", 3)]),
+                      "prior": ch.weighted("env.prior", [("fresh", 3), ("over_existing", 3), ("twice", 2), ("crashed_prefix", 3),
+                                                         ("same_process_twice", 2), ("same_process_after_other", 2)]),
                       "crash_at": None, "crash_kind": None}
                 if st["prior"] == "crashed_prefix":
                     st["crash_at"] = 1 + ch.draw("env.crash_at", max(1, writes0))
@@ -134,6 +135,20 @@ def run_case(case, ch: Choices) -> RunResult:
             prior = st["prior"]
             if ref["exit"] != 0 and prior in ("over_existing", "crashed_prefix", "twice"):
                 prior = "fresh"
+            pre_runs = None
+            if prior == "same_process_twice":
+                # one interpreter generates the same project twice (a build script, a watcher): the second generation is judged
+                pre_runs = [{"cwd": root, "argv": m["argv"]}] * (1 + (st.get("enum_seed") or 0) % 2)
+                res.bump("prior.same_process_twice")
+            elif prior == "same_process_after_other":
+                # one interpreter first generates another project, then this one
+                others = [w for w in corpus.all_worlds() if w["id"] != world.get("id")]
+                other = others[((st.get("enum_seed") or 0) + (st.get("hashseed") or 0)) % len(others)]
+                oroot = os.path.join(base, "s%d_other" % si)
+                om = worlds.materialize(other, oroot, corpus.corpus_partition(other, "schema") if other.get("layout") else None,
+                                        corpus.corpus_partition(other, "queries") if other.get("layout") else None)
+                pre_runs = [{"cwd": oroot, "argv": om["argv"]}]
+                res.bump("prior.same_process_after_other")
             if prior == "over_existing":
                 src = m0["targets"][0]
                 if os.path.isdir(src):
@@ -157,11 +172,15 @@ def run_case(case, ch: Choices) -> RunResult:
                 if r1.get("harness_failure"):
                     raise RuntimeError("child failed: %s" % r1.get("child_stderr"))
                 res.bump("prior.twice")
-            else:
+            elif prior == "fresh":
                 res.bump("prior.fresh")
-            r = genrun.run_child(root, m["argv"], m["targets"], hashseed=st["hashseed"], enum_seed=st["enum_seed"], clock=st["clock"])
+            r = genrun.run_child(root, m["argv"], m["targets"], hashseed=st["hashseed"], enum_seed=st["enum_seed"], clock=st["clock"],
+                                 pre_runs=pre_runs, timeout=90 if not pre_runs else 200)
             if r.get("harness_failure"):
                 raise RuntimeError("child failed: %s" % r.get("child_stderr"))
+            if r.get("timeout") and pre_runs:
+                res.observations.append("same-process-step-timeout")
+                continue
             got = _outcome(r, root, target)
             res.bump("generations")
             if st["hashseed"] != 0:
@@ -251,10 +270,11 @@ def plan(tier, base_seed) -> Plan:
     n_drawn = 70 if tier == "quick" else 400
     # corpus worlds: a fixed environment sweep (every table hash seed once, permuted enumeration, crash)
     forced_sets = []
-    for i, hs in enumerate(HASHSEEDS[1:5] if tier == "quick" else HASHSEEDS[1:]):
+    for i, hs in enumerate(HASHSEEDS[1:6] if tier == "quick" else HASHSEEDS[1:]):
         forced_sets.append({"hashseed": hs, "enum_seed": 100 + i, "creation_seed": 7 + i, "clock": 1_700_000_000.0 + i,
-                            "prior": ["crashed_prefix", "over_existing", "twice", "crashed_prefix", "fresh", "crashed_prefix", "crashed_prefix"][i % 7],
-                            "crash_at": [3, 0, 0, 8, 0, 5, 11][i % 7], "crash_kind": ["torn", "crash", "crash", "empty", "crash", "enospc", "torn"][i % 7]})
+                            "prior": ["crashed_prefix", "over_existing", "same_process_twice", "same_process_after_other", "fresh", "crashed_prefix", "twice",
+                                      "crashed_prefix"][i % 8],
+                            "crash_at": [3, 0, 0, 0, 0, 8, 0, 11][i % 8], "crash_kind": ["torn", "crash", "crash", "crash", "crash", "empty", "crash", "enospc"][i % 8]})
     n_corpus = len(cws)
     # thorough: the previous generation is torn at EVERY write of a corpus world, systematically (kinds alternate)
     sweeps = []
